@@ -33,6 +33,13 @@
 (* applies one operation (or a chain of index operations).  Every step     *)
 (* records the declarative expectation in `hist` for the replay.           *)
 (*                                                                         *)
+(* Kernels are VALUES here.  That the code's kernels are mutable objects   *)
+(* which every derivation must leave untouched ("indexing is pure":        *)
+(* evaluate -> derive -> evaluate the original again), and the layout of   *)
+(* the diag=True branch of the derivative kernels, are KernelPure.tla.     *)
+(* The replay of THIS module re-reads the parameters / buffers of the      *)
+(* original kernel object after every case as well (checks/c06.py purity). *)
+(*                                                                         *)
 (* PROPERTIES.  Agree: the label tensor the code produces is the           *)
 (* declarative one, for every operation valid for the shape.  The model    *)
 (* violates it; TLC's counterexamples are predictions which the replay     *)
